@@ -800,6 +800,77 @@ FULL_QUICK = [
 ]
 
 
+def ymcls_cases(tier, rng):
+    """the shipped program ymcls (built without the verification cfg) as a child process: what it prints and what it
+    writes (group.structure by the program itself, classnumber by the library) for discriminants with a known class
+    group; negation of a positive argument; its refusals"""
+    quick = tier == "quick"
+    yield Case("clscli_build release", k=False, tag="ymcls", profiles=["release"], timeout=900)
+    yield Case("clscli_build chk", k=False, tag="ymcls", profiles=["release"], timeout=900)
+    ds = [-3, -4, -7, -8, -15, -23, -56, -84, -3299, -5460, -1000003, -(4 * 1000001)]
+    ds = [D for D in ds if is_fundamental(D)]
+    for i in range(10 if quick else 60):
+        ds.append(random_fundamental(rng, rng.choice([10, 16, 20, 24, 30, 34]), [1, 5, 8, 12][i % 4]))
+    for prof in ("release", "chk"):
+        for i, D in enumerate(ds):
+            if prof == "chk" and i % 2:
+                continue
+            extra = [[], ["--threads", "3"], ["--use-double", "true"]][i % 3] if abs(D) > 10000 else []
+            yield Case(" ".join(["clscli", prof, "120", "--verbose", "silent"] + extra + [str(D), "OUT"]), k=False, tag="ymcls/run",
+                       profiles=["release"], timeout=150)
+        # a positive argument is negated; without output directory only stdout exists
+        yield Case(f"clscli {prof} 120 --verbose silent 1000003", k=False, tag="ymcls/run", profiles=["release"], timeout=150)
+        yield Case(f"clscli {prof} 120 --verbose silent 23", k=False, tag="ymcls/run", profiles=["release"], timeout=150)
+        for D, what in ((-1000002, "refused-mod4"), (-21, "refused-mod4"), (-((1 << 512) + 3), "refused-size"), ("abc", "refused-parse")):
+            yield Case(f"clscli {prof} 30 --verbose silent {D} OUT", k=False, tag="ymcls/" + what, profiles=["release"], timeout=60)
+
+
+def ymcls_oracle(case, ans):
+    if case.op == "clscli_build":
+        return None if ans == "ok" else f"ymcls does not build: {ans}"
+    if not ans.startswith("exit="):
+        return f"no answer from the child process ({ans})"
+    kv = dict(x.split("=", 1) for x in ans.split())
+    code, err, out = kv["exit"], kv["err"], kv["out"]
+    what = case.tag.split("/")[1]
+    if err.startswith("panic:") or err == "timeout" or code.startswith("sig"):
+        # C18 speaks about returned results; a crash of the program is reported all the same: these inputs are tiny
+        return f"ymcls crashed or hung: exit={code} {err}"
+    if what != "run":
+        return None if (code != "0" and err == what) else f"expected the refusal {what}: exit={code} err={err} out={out[:60]}"
+    toks = [t for t in case.args[2:] if t != "OUT"]
+    D = int(toks[-1])
+    if D > 0:
+        D = -D
+    if code != "0" or err != "-":
+        return f"ymcls failed on D = {D}: exit={code} err={err}"
+    lines = out.split(",")
+    if not lines[0].startswith("G"):
+        return f"first output line is not the invariants line: {lines[0]}"
+    invs = [int(x) for x in lines[0].split("_")[1:]]
+    h = 1
+    for d in invs:
+        h *= d
+    files = {}
+    if "files" in kv and kv["files"] != "-":
+        for f in kv["files"].split(";"):
+            nm, c = f.split(":", 1)
+            files[nm] = c
+    if "OUT" in case.args:
+        if files.get("group.structure") != out:
+            return f"group.structure ({files.get('group.structure')}) differs from what was printed ({out})"
+        if "classnumber" not in files or int(files["classnumber"]) != h:
+            return f"file classnumber = {files.get('classnumber')}, printed invariants {invs} multiply to {h} (D = {D})"
+        if "relations.sieve" not in files:
+            return "no relations.sieve in the output directory"
+    # generator lines: `p x1 .. xk` with as many coordinates as invariants, each within its modulus
+    for l in lines[1:]:
+        t = [int(x) for x in l.split("_")]
+        if len(t) != 1 + len(invs) or any(not (0 <= x < d) for x, d in zip(t[1:], invs)) or not is_prime(t[0]):
+            return f"malformed generator line {l} for invariants {invs}"
+    return _check_h(D, h, invs)
+
+
 def cases(tier, rng, extended=False):
     quick = tier == "quick"
     scale = 1 if quick else 6
@@ -808,6 +879,8 @@ def cases(tier, rng, extended=False):
         scale *= 5
         X = max(X, 400000)
     table_upto(X)
+    if not extended:
+        yield from ymcls_cases(tier, rng)
     yield from bplus_cases(rng, 1500 * scale)
     yield from history_cases(rng, 400 * scale)
     yield from filter_cases(rng, scale)
@@ -1190,6 +1263,8 @@ def sparse_empty_structure(case, ans):
 
 def finding_key(case, ans, profile):
     """the known finding is exactly: sparse path, CORRECT class number, empty list of cyclic factors"""
+    if case.op in ("clscli", "clscli_build"):
+        return None
     sp = sparse_empty_structure(case, ans)
     if sp is None:
         return None
@@ -1208,6 +1283,8 @@ def _norm(case):
 
 
 def oracle(case, ans):
+    if case.op in ("clscli", "clscli_build"):
+        return ymcls_oracle(case, ans)
     case = _norm(case)
     op, a = case.op, case.args
     if op == "cg_b_plus":
@@ -1668,6 +1745,8 @@ def followup(case, ans):
 # ================================================================ distribution / texts
 
 def klass(case, ans):
+    if case.op in ("clscli", "clscli_build"):
+        return f"{case.tag}/{case.args[0]}/{ans.split(' err=')[-1] if ' err=' in ans else ans}"
     reuse = "reuse-outdir/" if case.op == "cg_full_reuse" else ""
     case = _norm(case)
     return reuse + _klass(case, ans)
@@ -1782,7 +1861,8 @@ UNMODELLED = [
     "group_structure_sparse (returns no invariants: `FIXME: structure is incomplete` in the source), file output, rayon, RwLock",
     "I256/u64 overflow inside Poly::eval and the sign decision (values are asserted < 2^255 by the code; primes < 2^32)",
     "binary ymcls (argument parsing, negation of a positive argument, the 512-bit and `D mod 4` refusals, writing group.structure from the "
-    "returned value): thin wrapper, not exercised; the harness reads relations.sieve and classnumber written by the library call",
+    "returned value): not modelled; run as a child process on discriminants with a known class group (ops clscli*): printed invariants, "
+    "group.structure, classnumber and the refusals are judged; the other ops read relations.sieve and classnumber written by the library call",
 ]
 CLAIM = ("PARTIAL. Proved in Lean, for all inputs, about models tied to the code by differential runs: (1) the sign convention is well defined: "
          "for every prime p there is exactly one normalised root b (0 <= b <= p, b = D mod 2, b^2 = D mod 4p), Prime::b_plus returns it for "
